@@ -252,7 +252,7 @@ def judge_width(ctx, start, step, n, width, position, with_attr, fn, two_d):
         ctx.violate("width:position", "width:position", observed={"left": left, "right": right}, expected=position, spec=spec)
 
 
-STARTS = [0.0, 0.3, 10.0]
+STARTS = [0.0, 0.3, 10.0, -2.0]
 STEPS = [1.0, 0.5, 0.1, 0.01, 1 / 3, 0.003, 1 / 44100]
 
 
